@@ -641,4 +641,383 @@ theorem vIds_updSet_app (nb : Node) (f : Node → Node) (c : Nat)
       rw [List.append_assoc, List.append_assoc]
       exact List.Perm.append_left _ List.perm_append_comm
 
+/-! ### coherence of the copies of an AttributeSet object -/
+
+@[simp] theorem occSL_nil : occSL [] = [] := rfl
+@[simp] theorem occSL_cons (x : Node) (xs : List Node) : occSL (x :: xs) = occS x ++ occSL xs := rfl
+theorem occSL_append (a b : List Node) : occSL (a ++ b) = occSL a ++ occSL b := by
+  induction a with
+  | nil => rfl
+  | cons x r ih => simp [ih]
+
+theorem mem_occSL (a : Node) (xs : List Node) : a ∈ occSL xs ↔ ∃ x ∈ xs, a ∈ occS x := by
+  induction xs with
+  | nil => simp
+  | cons y r ih => simp [ih]
+
+mutual
+  def nsize : Node → Nat
+    | .set _ vs o _ _ => 1 + nsizeL vs + nsizeL o
+    | .bind _ _ _ v _ _ => 1 + nsize v
+    | .entry _ l _ _ => 1 + nsize l
+    | _ => 1
+  def nsizeL : List Node → Nat
+    | [] => 0
+    | x :: xs => nsize x + nsizeL xs
+end
+
+mutual
+  theorem nsize_occS : (x a : Node) → a ∈ occS x → nsize a ≤ nsize x
+    | .atom _, a, h => by simp [occS] at h
+    | .ident _, a, h => by simp [occS] at h
+    | .inherit _ _, a, h => by simp [occS] at h
+    | .entry _ l _ _, a, h => by
+      simp only [occS] at h; have := nsize_occS l a h; simp only [nsize]; omega
+    | .bind _ _ _ v _ _, a, h => by
+      simp only [occS] at h; have := nsize_occS v a h; simp only [nsize]; omega
+    | .set s vs o m r, a, h => by
+      simp only [occS, List.mem_cons, List.mem_append] at h
+      rcases h with rfl | h | h
+      · exact Nat.le_refl _
+      · have := nsizeL_occSL vs a h; simp only [nsize]; omega
+      · have := nsizeL_occSL o a h; simp only [nsize]; omega
+  theorem nsizeL_occSL : (xs : List Node) → (a : Node) → a ∈ occSL xs → nsize a ≤ nsizeL xs
+    | [], a, h => by simp at h
+    | x :: xs, a, h => by
+      simp only [occSL_cons, List.mem_append] at h
+      simp only [nsizeL]
+      rcases h with h | h
+      · have := nsize_occS x a h; omega
+      · have := nsizeL_occSL xs a h; omega
+end
+
+/-- the occurrences strictly inside a set -/
+def strictOcc (P : Node) : List Node := occSL P.setValues ++ occSL P.setOrder
+
+theorem nsize_strictOcc (P a : Node) (h : a ∈ strictOcc P) : nsize a < nsize P := by
+  cases P with
+  | set s vs o m r =>
+    simp only [strictOcc, setValues, setOrder, List.mem_append] at h
+    simp only [nsize]
+    rcases h with h | h
+    · have := nsizeL_occSL vs a h; omega
+    · have := nsizeL_occSL o a h; omega
+  | _ => simp [strictOcc, setValues, setOrder] at h
+
+theorem strictOcc_sub (P a : Node) (h : a ∈ strictOcc P) : a ∈ occS P := by
+  cases P with
+  | set s vs o m r => simp only [strictOcc, setValues, setOrder] at h; simp [occS, h]
+  | _ => simp [strictOcc, setValues, setOrder] at h
+
+mutual
+  theorem occS_isSet : (x a : Node) → a ∈ occS x → a.isSet = true
+    | .atom _, a, h => by simp [occS] at h
+    | .ident _, a, h => by simp [occS] at h
+    | .inherit _ _, a, h => by simp [occS] at h
+    | .entry _ l _ _, a, h => occS_isSet l a (by simpa [occS] using h)
+    | .bind _ _ _ v _ _, a, h => occS_isSet v a (by simpa [occS] using h)
+    | .set s vs o m r, a, h => by
+      simp only [occS, List.mem_cons, List.mem_append] at h
+      rcases h with rfl | h | h
+      · rfl
+      · exact occSL_isSet vs a h
+      · exact occSL_isSet o a h
+  theorem occSL_isSet : (xs : List Node) → (a : Node) → a ∈ occSL xs → a.isSet = true
+    | [], a, h => by simp at h
+    | x :: xs, a, h => by
+      simp only [occSL_cons, List.mem_append] at h
+      rcases h with h | h
+      · exact occS_isSet x a h
+      · exact occSL_isSet xs a h
+end
+
+
+mutual
+  theorem findSet_mem (c : Nat) : (x r : Node) → findSet c x = some r → r ∈ occS x ∧ r.setSid? = some c
+    | .atom _, r, h => by simp [findSet] at h
+    | .ident _, r, h => by simp [findSet] at h
+    | .inherit _ _, r, h => by simp [findSet] at h
+    | .entry _ l _ _, r, h => by simpa [occS] using findSet_mem c l r (by simpa [findSet] using h)
+    | .bind _ _ _ v _ _, r, h => by simpa [occS] using findSet_mem c v r (by simpa [findSet] using h)
+    | .set s vs o m rr, r, h => by
+      simp only [findSet] at h
+      by_cases hs : s = c
+      · simp only [hs, if_true, Option.some.injEq] at h
+        subst h; simp [occS, setSid?, hs]
+      · simp only [hs, if_false] at h
+        cases hv : findSetL c vs with
+        | some x =>
+          simp only [hv, Option.some.injEq] at h; subst h
+          have := findSetL_mem c vs x hv
+          exact ⟨by simp [occS, this.1], this.2⟩
+        | none =>
+          simp only [hv] at h
+          have := findSetL_mem c o r h
+          exact ⟨by simp [occS, this.1], this.2⟩
+  theorem findSetL_mem (c : Nat) : (xs : List Node) → (r : Node) → findSetL c xs = some r →
+      r ∈ occSL xs ∧ r.setSid? = some c
+    | [], r, h => by simp [findSetL] at h
+    | x :: xs, r, h => by
+      simp only [findSetL] at h
+      cases hx : findSet c x with
+      | some y =>
+        simp only [hx, Option.some.injEq] at h; subst h
+        have := findSet_mem c x y hx
+        exact ⟨by simp [this.1], this.2⟩
+      | none =>
+        simp only [hx] at h
+        have := findSetL_mem c xs r h
+        exact ⟨by simp [this.1], this.2⟩
+end
+
+mutual
+  theorem findSet_isSome (c : Nat) : (x a : Node) → a ∈ occS x → a.setSid? = some c → (findSet c x).isSome = true
+    | .atom _, a, h, _ => by simp [occS] at h
+    | .ident _, a, h, _ => by simp [occS] at h
+    | .inherit _ _, a, h, _ => by simp [occS] at h
+    | .entry _ l _ _, a, h, hc => by simpa [findSet] using findSet_isSome c l a (by simpa [occS] using h) hc
+    | .bind _ _ _ v _ _, a, h, hc => by simpa [findSet] using findSet_isSome c v a (by simpa [occS] using h) hc
+    | .set s vs o m r, a, h, hc => by
+      simp only [findSet]
+      by_cases hs : s = c
+      · simp [hs]
+      · simp only [hs, if_false]
+        simp only [occS, List.mem_cons, List.mem_append] at h
+        rcases h with rfl | h | h
+        · simp [setSid?] at hc; exact absurd hc hs
+        · have := findSetL_isSome c vs a h hc
+          cases hv : findSetL c vs with
+          | some x => rfl
+          | none => simp [hv] at this
+        · cases hv : findSetL c vs with
+          | some x => rfl
+          | none => exact findSetL_isSome c o a h hc
+  theorem findSetL_isSome (c : Nat) : (xs : List Node) → (a : Node) → a ∈ occSL xs → a.setSid? = some c →
+      (findSetL c xs).isSome = true
+    | [], a, h, _ => by simp at h
+    | x :: xs, a, h, hc => by
+      simp only [occSL_cons, List.mem_append] at h
+      simp only [findSetL]
+      cases hx : findSet c x with
+      | some y => rfl
+      | none =>
+        rcases h with h | h
+        · have := findSet_isSome c x a h hc; simp [hx] at this
+        · exact findSetL_isSome c xs a h hc
+end
+
+theorem subAt_mem_occS (p : List Text) : ∀ (T cur : Node), subAt T p = some cur → cur.isSet = true →
+    cur ∈ occS T := by
+  induction p with
+  | nil =>
+    intro T cur h hs
+    simp at h; subst h
+    obtain ⟨s, vs, o, m, r, rfl⟩ := (isSet_iff T).mp hs
+    simp [occS]
+  | cons k ks ih =>
+    intro T cur h hs
+    simp only [subAt] at h
+    cases hst : stepInto T k with
+    | none => simp [hst] at h
+    | some val =>
+      simp only [hst] at h
+      obtain ⟨s, o, m, r, i, ne, bf, af, pre, post, rfl, _⟩ := stepInto_some T k val hst
+      have := ih val cur h hs
+      simp [occS, occSL_append, this]
+
+/-- with coherent copies, `findSet` returns the object as it is at its place in `values` -/
+theorem findSet_of_subAt (T cur : Node) (c : Nat) (p : List Text) (hcoh : Coh T)
+    (hp : subAt T p = some cur) (hc : cur.setSid? = some c) : findSet c T = some cur := by
+  obtain ⟨vs, o, m, r, rfl⟩ := setSid_some _ _ hc
+  have hm := subAt_mem_occS p T _ hp rfl
+  have hs := findSet_isSome c T _ hm hc
+  cases hf : findSet c T with
+  | none => simp [hf] at hs
+  | some x =>
+    obtain ⟨hx, hxc⟩ := findSet_mem c T x hf
+    rw [hcoh x hx _ hm (by rw [hxc, hc])]
+
+/-- a mutation that only removes items from `values` / `attrpath_order` -/
+def Shrinks (g : Node → Node) : Prop :=
+  ∀ s vs o m r, ∃ vs' o', g (.set s vs o m r) = .set s vs' o' m r ∧ vs'.Sublist vs ∧ o'.Sublist o
+
+theorem occSL_sublist (xs ys : List Node) (h : xs.Sublist ys) (a : Node) (ha : a ∈ occSL xs) : a ∈ occSL ys := by
+  induction h with
+  | slnil => exact ha
+  | cons y _ ih => simp [ih ha]
+  | cons_cons y _ ih =>
+    simp only [occSL_cons, List.mem_append] at ha ⊢
+    rcases ha with h | h
+    · exact Or.inl h
+    · exact Or.inr (ih h)
+
+theorem occS_shrinks (g : Node → Node) (hg : Shrinks g) (P a : Node) (hP : P.isSet = true)
+    (ha : a ∈ occS (g P)) : a = g P ∨ a ∈ strictOcc P := by
+  obtain ⟨s, vs, o, m, r, rfl⟩ := (isSet_iff P).mp hP
+  obtain ⟨vs', o', e, h1, h2⟩ := hg s vs o m r
+  rw [e] at ha ⊢
+  simp only [occS, List.mem_cons, List.mem_append] at ha
+  rcases ha with h | h | h
+  · exact Or.inl h
+  · right; simp [strictOcc, setValues, occSL_sublist _ _ h1 a h]
+  · right; simp [strictOcc, setOrder, occSL_sublist _ _ h2 a h]
+
+mutual
+  theorem updSet_id_of_no_occ (c : Nat) (g : Node → Node) :
+      (y : Node) → (∀ q ∈ occS y, q.setSid? ≠ some c) → updSet c g y = y
+    | .atom _, _ => rfl
+    | .ident _, _ => rfl
+    | .inherit _ _, _ => rfl
+    | .entry sg l b a, h => by
+      simp only [updSet, updSet_id_of_no_occ c g l (fun q hq => h q (by simpa [occS] using hq))]
+    | .bind i n ne v b a, h => by
+      simp only [updSet, updSet_id_of_no_occ c g v (fun q hq => h q (by simpa [occS] using hq))]
+    | .set s vs o m r, h => by
+      have hs : ¬ s = c := by
+        intro e; exact h (.set s vs o m r) (by simp [occS]) (by simp [setSid?, e])
+      simp only [updSet, hs, if_false,
+        updSetL_id_of_no_occ c g vs (fun q hq => h q (by simp [occS, hq])),
+        updSetL_id_of_no_occ c g o (fun q hq => h q (by simp [occS, hq]))]
+  theorem updSetL_id_of_no_occ (c : Nat) (g : Node → Node) :
+      (ys : List Node) → (∀ q ∈ occSL ys, q.setSid? ≠ some c) → updSetL c g ys = ys
+    | [], _ => rfl
+    | y :: ys, h => by
+      simp only [updSetL, updSet_id_of_no_occ c g y (fun q hq => h q (by simp [hq])),
+        updSetL_id_of_no_occ c g ys (fun q hq => h q (by simp [hq]))]
+end
+
+mutual
+  theorem occS_updSet (c : Nat) (g : Node → Node) : (x a' : Node) → a' ∈ occS (updSet c g x) →
+      (∃ a ∈ occS x, a.setSid? ≠ some c ∧ a' = updSet c g a) ∨
+      (∃ P ∈ occS x, P.setSid? = some c ∧ a' ∈ occS (g P))
+    | .atom _, a', h => by simp [updSet, occS] at h
+    | .ident _, a', h => by simp [updSet, occS] at h
+    | .inherit _ _, a', h => by simp [updSet, occS] at h
+    | .entry sg l b a, a', h => by
+      simpa [occS] using occS_updSet c g l a' (by simpa [updSet, occS] using h)
+    | .bind i n ne v b a, a', h => by
+      simpa [occS] using occS_updSet c g v a' (by simpa [updSet, occS] using h)
+    | .set s vs o m r, a', h => by
+      by_cases hs : s = c
+      · right
+        simp only [updSet, hs, if_true] at h
+        exact ⟨.set s vs o m r, by simp [occS], by simp [setSid?, hs], by rw [hs]; exact h⟩
+      · simp only [updSet, hs, if_false, occS, List.mem_cons, List.mem_append] at h
+        rcases h with h | h | h
+        · left
+          refine ⟨.set s vs o m r, by simp [occS], by simp [setSid?, hs], ?_⟩
+          simp only [updSet, hs, if_false]; exact h
+        · rcases occSL_updSetL c g vs a' h with ⟨a, ha, h1, h2⟩ | ⟨P, hP, h1, h2⟩
+          · exact Or.inl ⟨a, by simp [occS, ha], h1, h2⟩
+          · exact Or.inr ⟨P, by simp [occS, hP], h1, h2⟩
+        · rcases occSL_updSetL c g o a' h with ⟨a, ha, h1, h2⟩ | ⟨P, hP, h1, h2⟩
+          · exact Or.inl ⟨a, by simp [occS, ha], h1, h2⟩
+          · exact Or.inr ⟨P, by simp [occS, hP], h1, h2⟩
+  theorem occSL_updSetL (c : Nat) (g : Node → Node) : (xs : List Node) → (a' : Node) →
+      a' ∈ occSL (updSetL c g xs) →
+      (∃ a ∈ occSL xs, a.setSid? ≠ some c ∧ a' = updSet c g a) ∨
+      (∃ P ∈ occSL xs, P.setSid? = some c ∧ a' ∈ occS (g P))
+    | [], a', h => by simp [updSetL] at h
+    | x :: xs, a', h => by
+      simp only [updSetL, occSL_cons, List.mem_append] at h
+      rcases h with h | h
+      · rcases occS_updSet c g x a' h with ⟨a, ha, h1, h2⟩ | ⟨P, hP, h1, h2⟩
+        · exact Or.inl ⟨a, by simp [ha], h1, h2⟩
+        · exact Or.inr ⟨P, by simp [hP], h1, h2⟩
+      · rcases occSL_updSetL c g xs a' h with ⟨a, ha, h1, h2⟩ | ⟨P, hP, h1, h2⟩
+        · exact Or.inl ⟨a, by simp [ha], h1, h2⟩
+        · exact Or.inr ⟨P, by simp [hP], h1, h2⟩
+end
+
+mutual
+  theorem occS_trans : (x a b : Node) → a ∈ occS x → b ∈ occS a → b ∈ occS x
+    | .atom _, a, b, ha, _ => by simp [occS] at ha
+    | .ident _, a, b, ha, _ => by simp [occS] at ha
+    | .inherit _ _, a, b, ha, _ => by simp [occS] at ha
+    | .entry sg l bb aa, a, b, ha, hb => by
+      simp only [occS] at ha ⊢; exact occS_trans l a b ha hb
+    | .bind i n ne v bb aa, a, b, ha, hb => by
+      simp only [occS] at ha ⊢; exact occS_trans v a b ha hb
+    | .set s vs o m r, a, b, ha, hb => by
+      simp only [occS, List.mem_cons, List.mem_append] at ha
+      rcases ha with rfl | ha | ha
+      · exact hb
+      · simp only [occS, List.mem_cons, List.mem_append]
+        exact Or.inr (Or.inl (occSL_trans vs a b ha hb))
+      · simp only [occS, List.mem_cons, List.mem_append]
+        exact Or.inr (Or.inr (occSL_trans o a b ha hb))
+  theorem occSL_trans : (xs : List Node) → (a b : Node) → a ∈ occSL xs → b ∈ occS a → b ∈ occSL xs
+    | [], a, b, ha, _ => by simp at ha
+    | x :: xs, a, b, ha, hb => by
+      simp only [occSL_cons, List.mem_append] at ha ⊢
+      rcases ha with ha | ha
+      · exact Or.inl (occS_trans x a b ha hb)
+      · exact Or.inr (occSL_trans xs a b ha hb)
+end
+
+theorem updSet_sid_ne (c : Nat) (g : Node → Node) (a : Node) (hs : a.isSet = true) (h : a.setSid? ≠ some c) :
+    (updSet c g a).setSid? = a.setSid? := by
+  obtain ⟨s, vs, o, m, r, rfl⟩ := (isSet_iff a).mp hs
+  have : ¬ s = c := by intro e; exact h (by simp [setSid?, e])
+  simp [updSet, this, setSid?]
+
+theorem shrinks_sid (g : Node → Node) (hg : Shrinks g) (P : Node) (hs : P.isSet = true) :
+    (g P).setSid? = P.setSid? := by
+  obtain ⟨s, vs, o, m, r, rfl⟩ := (isSet_iff P).mp hs
+  obtain ⟨vs', o', e, _, _⟩ := hg s vs o m r
+  rw [e]; rfl
+
+/-- nothing strictly inside a copy of the object `c` is a copy of `c` -/
+theorem no_occ_inside (x P b : Node) (c : Nat) (hx : Coh x) (hP : P ∈ occS x) (hPc : P.setSid? = some c)
+    (hb : b ∈ strictOcc P) : ∀ q ∈ occS b, q.setSid? ≠ some c := by
+  intro q hq hqc
+  have hbx : b ∈ occS x := occS_trans x P b hP (strictOcc_sub P b hb)
+  have hqx : q ∈ occS x := occS_trans x b q hbx hq
+  have : q = P := hx q hqx P hP (by rw [hqc, hPc])
+  subst this
+  have h1 := nsize_occS b q hq
+  have h2 := nsize_strictOcc q b hb
+  omega
+
+/-- Coherence survives a removal made on every copy of one object. -/
+theorem coh_updSet (c : Nat) (g : Node → Node) (hg : Shrinks g) (x : Node) (hx : Coh x) :
+    Coh (updSet c g x) := by
+  intro a' ha' b' hb' hsid
+  -- classify an occurrence of the result
+  have classify : ∀ z', z' ∈ occS (updSet c g x) →
+      (∃ z ∈ occS x, z.setSid? ≠ some c ∧ z' = updSet c g z ∧ z'.setSid? = z.setSid?) ∨
+      (∃ P ∈ occS x, P.setSid? = some c ∧ z' = g P ∧ z'.setSid? = some c) ∨
+      (∃ P ∈ occS x, P.setSid? = some c ∧ z' ∈ strictOcc P ∧ z' ∈ occS x) := by
+    intro z' hz'
+    rcases occS_updSet c g x z' hz' with ⟨z, hz, h1, h2⟩ | ⟨P, hP, h1, h2⟩
+    · exact Or.inl ⟨z, hz, h1, h2, by rw [h2]; exact updSet_sid_ne c g z (occS_isSet x z hz) h1⟩
+    · rcases occS_shrinks g hg P z' (occS_isSet x P hP) h2 with e | hin
+      · exact Or.inr (Or.inl ⟨P, hP, h1, e, by rw [e, shrinks_sid g hg P (occS_isSet x P hP), h1]⟩)
+      · exact Or.inr (Or.inr ⟨P, hP, h1, hin, occS_trans x P z' hP (strictOcc_sub P z' hin)⟩)
+  rcases classify a' ha' with ⟨a, ha, ha1, ha2, ha3⟩ | ⟨P, hP, hP1, ha2, ha3⟩ | ⟨P, hP, hP1, hin, hax⟩ <;>
+  rcases classify b' hb' with ⟨b, hb, hb1, hb2, hb3⟩ | ⟨Q, hQ, hQ1, hb2, hb3⟩ | ⟨Q, hQ, hQ1, hjn, hbx⟩
+  · have : a = b := hx a ha b hb (by rw [← ha3, ← hb3, hsid])
+    rw [ha2, hb2, this]
+  · exfalso; apply ha1; rw [← ha3, hsid, hb3]
+  · have : a = b' := hx a ha b' hbx (by rw [← ha3, hsid])
+    rw [ha2, this]
+    exact updSet_id_of_no_occ c g b' (no_occ_inside x Q b' c hx hQ hQ1 hjn)
+  · exfalso; apply hb1; rw [← hb3, ← hsid, ha3]
+  · have : P = Q := hx P hP Q hQ (by rw [hP1, hQ1])
+    rw [ha2, hb2, this]
+  · exfalso
+    have : b' = Q := hx b' hbx Q hQ (by rw [← hsid, ha3, hQ1])
+    rw [this] at hjn
+    have := nsize_strictOcc Q Q hjn
+    omega
+  · have : b = a' := hx b hb a' hax (by rw [← hb3, ← hsid])
+    rw [hb2, this]
+    exact (updSet_id_of_no_occ c g a' (no_occ_inside x P a' c hx hP hP1 hin)).symm
+  · exfalso
+    have : a' = P := hx a' hax P hP (by rw [hsid, hb3, hP1])
+    rw [this] at hin
+    have := nsize_strictOcc P P hin
+    omega
+  · exact hx a' hax b' hbx hsid
+
 end Nima
